@@ -70,3 +70,31 @@ func RunCmd(dir, prog string, args []string, stdin []byte, extraEnv []string, li
 	}
 	return r
 }
+
+// RunCmdFile is RunCmd with an open file as stdin (the child shares the file description, so the
+// parent can see afterwards how much was read).
+func RunCmdFile(dir, prog string, args []string, stdin *os.File, extraEnv []string, limit time.Duration) BinResult {
+	ctx, cancel := context.WithTimeout(context.Background(), limit)
+	defer cancel()
+	cmd := exec.CommandContext(ctx, prog, args...)
+	cmd.Dir = dir
+	cmd.Env = append([]string{"PATH=/usr/bin:/bin", "HOME=/nonexistent", "NO_COLOR=1", "LANG=C.UTF-8"}, extraEnv...)
+	cmd.Stdin = stdin
+	var so, se bytes.Buffer
+	cmd.Stdout, cmd.Stderr = &so, &se
+	err := cmd.Run()
+	r := BinResult{Stdout: so.String(), Stderr: se.String()}
+	if ctx.Err() == context.DeadlineExceeded {
+		r.Timeout = true
+		r.Exit = -1
+		return r
+	}
+	if err != nil {
+		if ee, ok := err.(*exec.ExitError); ok {
+			r.Exit = ee.ExitCode()
+		} else {
+			r.Exit = -2
+		}
+	}
+	return r
+}
